@@ -172,7 +172,7 @@ impl Planner {
                 let shuffle = if rng.chance(1, 3) { Some(rng.next_u64()) } else { None };
                 // fault injection: a sixth of the earlier calls unwinds with a
                 // panic somewhere inside simplify (caught by the caller)
-                let abort_at = if self.hooks && op != Op::Battery && rng.chance(1, 6) { Some(1 + rng.below(24) as u64) } else { None };
+                let abort_at = if self.hooks && op != Op::Battery && rng.chance(1, 6) { Some(1 + rng.below(48) as u64) } else { None };
                 spec.pre.push(PreOp { base, dual, op, shuffle, abort_at });
             }
             if rng.chance(1, 4) {
@@ -180,7 +180,7 @@ impl Planner {
                 // (a repeated call must not see what the first one left behind)
                 let op = if self.prop == "C16" && spec.op == Op::SimplifyPtc { Op::SimplifyPtc } else { Op::IsEuclidean };
                 let shuffle = if rng.chance(1, 2) { Some(rng.next_u64()) } else { None };
-                let abort_at = if self.hooks && rng.chance(1, 4) { Some(1 + rng.below(24) as u64) } else { None };
+                let abort_at = if self.hooks && rng.chance(1, 4) { Some(1 + rng.below(48) as u64) } else { None };
                 spec.pre.push(PreOp { base: spec.base.clone(), dual: rng.chance(1, 2), op, shuffle, abort_at });
             }
         }
@@ -505,7 +505,7 @@ impl Planner {
                     let shuffle = if r.chance(1, 2) { Some(r.next_u64()) } else { None };
                     let battery = in_lit && j + 1 < len && r.chance(1, 6);
                     // injected abort when this element is replayed as an earlier call
-                    let abort = if self.hooks && !battery && r.chance(1, 6) { Some(1 + r.below(24) as u64) } else { None };
+                    let abort = if self.hooks && !battery && r.chance(1, 6) { Some(1 + r.below(48) as u64) } else { None };
                     elems.push((in_lit, ix, dual, shuffle, battery, abort));
                 }
                 for j in 1..len {
@@ -800,7 +800,7 @@ impl Planner {
                             },
                             _ => 0,
                         };
-                        let abort = if self.hooks && kind != 2 && r.chance(1, 6) { Some(1 + r.below(24) as u64) } else { None };
+                        let abort = if self.hooks && kind != 2 && r.chance(1, 6) { Some(1 + r.below(48) as u64) } else { None };
                         elems.push((it, kind, abort));
                     }
                     let pre_of = |e: &(It, u8, Option<u64>)| -> PreOp {
